@@ -165,6 +165,9 @@ def pick_insertion(rng, o, d, prefer_knot=0.4, fine=False, mindist=1e-3):
     if knots and rng.random() < prefer_knot:
         u = rng.choice(knots)
         return u, cnt[u], 'on-knot-m%d' % cnt[u]
+    # the parameter value 0.0 strictly inside an un-normalised domain is as admissible as any other
+    if a < 0.0 < b and rng.random() < 0.35 and all(abs(k) >= mindist * (b - a) for k in set(U)):
+        return 0.0, 0, 'in-span'
     for _ in range(50):
         u = rng.uniform(a, b) if not fine else a + (b - a) * rng.choice([rng.uniform(0, 1e-4), rng.uniform(1e-4, 1e-2)])
         if a < u < b and all(abs(u - k) >= (mindist if not fine else 1e-7) * (b - a) for k in set(U)):
